@@ -1,4 +1,7 @@
+pub mod c08;
 pub mod c09;
+pub mod c11;
+pub mod c12;
 
 use crate::run::{Acc, Ctx};
 use crate::util::Json;
@@ -9,23 +12,37 @@ pub type CheckOut = (Acc, String, bool);
 pub fn dispatch(ctx: &Ctx) -> Option<CheckOut> {
     Some(match ctx.prop.as_str() {
         "C09" => c09::run(ctx),
+        "C12" => c12::run(ctx),
+        "C08" => c08::run(ctx),
+        "C11" => c11::run(ctx),
         _ => return None,
     })
 }
 
-pub fn replay(prop: &str, payload: &Json) -> Option<String> {
-    Some(match prop {
-        "C09" => c09::replay(payload),
-        _ => return None,
-    })
-}
 
 pub fn assumptions(prop: &str) -> Vec<&'static str> {
     match prop {
+        "C12" => vec!["natural order: numeric (i32 exactly embedded in f64), code-point order for chars, lexicographic by element with the shorter prefix first", "slice/slice pairs are not judged against an order (the property does not settle them); only absence of failure is checked"],
+        "C11" => vec!["reference: structural equality on V with list/concatenation flattening exactly as both stores' concatenation iterators splice (lists directly under a concatenation are spliced, nested lists are items)", "NaN excluded (reflexivity is not demanded of NaN)", "symbol lists hold symbols only (SimpleGarnishData cannot store numeric parts)"],
+        "C08" => vec!["definedness table (DESIGN Appendix C) transcribed once from the runtime's explicit match arms; it is the specification of which cells have a defined result", "defined cells are judged only by the generic clauses (at most one defer, unit after decline, host result used, one result, UnsupportedOpTypes never escapes)"],
         "C09" => vec![
             "reference arithmetic: i128 for integers, IEEE f64 (Rust core) for floats incl. powf/fmod",
             "shift that moves bits out of 32 bits may answer unit or the two's-complement pattern; float // may answer integer or integral float (DESIGN C09)",
         ],
         _ => vec![],
     }
+}
+
+use crate::mon::Mon;
+use crate::store::Store;
+use crate::value::Mk;
+use garnish_lang_traits::{GarnishData, Instruction};
+
+/// give a fresh monitored store a trivial expression at jump-table index 0 (body: `$`), so that
+/// `V::Expr(0)` operands denote something that can be applied
+pub fn prep_expr0<D: Store + Mk>(m: &mut Mon<D>) {
+    let at = m.get_instruction_len();
+    let _ = m.push_instruction(Instruction::PutValue, None);
+    let _ = m.push_instruction(Instruction::EndExpression, None);
+    let _ = m.push_to_jump_table(at);
 }
